@@ -53,6 +53,7 @@ Apply(op, l) ==
     [] op.k = "insert" -> IF ~op.v.ok THEN Exc(l, "TypeError") ELSE Ok(InsertAt(l, NormIns(Len(l), op.i), Item(op.v)))
     [] op.k = "extend" -> IF \E k \in 1..Len(op.vs) : ~op.vs[k].ok THEN Exc(l, "TypeError")     \* atomic reading, see note in the harness
                           ELSE Ok(l \o [k \in 1..Len(op.vs) |-> Item(op.vs[k])])
+    [] op.k = "assign_self" -> Ok(l)                                                            \* owner.args = owner.args
     [] op.k = "extend_self" -> Ok(l \o l)                                                      \* a.extend(a): the list doubled, like list
     [] op.k = "remove" -> IF ~op.v.ok THEN Exc(l, "TypeError")
                           ELSE LET k == FirstEq(l, 1, op.v) IN IF k = 0 THEN Exc(l, "ValueError") ELSE Ok(RemoveAt(l, k))
